@@ -480,7 +480,7 @@ class Result:
             if k:
                 if sig not in self.known_hits:
                     self.known_hits.append(sig)
-                    print('KNOWN-FINDING: property=%s %s' % (self.pid, k[0]['_line'][6:].strip()))
+                    print('KNOWN-FINDING: %s' % k[0]['_line'][6:].strip())
             else:
                 real.append((sig, path, desc))
         cov = {'states': max(self.states, 0), 'transitions': max(self.transitions, 0),
@@ -634,3 +634,28 @@ def validate_and_report(res, spec_dir, module, cfg, execs, tag, describe, batch=
         seen.add(sig)
         res.violation(sig, describe(tr), {'scenario': tag, 'trace': tr, 'trace_spec': module})
     return len(rejected)
+
+
+def first_unexplained(spec_dir, module, cfg, trace, tag='fu'):
+    """index of the first event of `trace` that no behaviour of the trace spec explains (bisect over prefixes), or None"""
+    evs = [e for e in trace if not str(e.get('e', '')).startswith('#')]
+    os.makedirs(os.path.join(BUILD, 'traces'), exist_ok=True)
+
+    def ok(n):
+        fn = os.path.join(BUILD, 'traces', '%s-%d-prefix.ndjson' % (tag, os.getpid()))
+        with open(fn, 'w') as f:
+            for ev in evs[:n]:
+                f.write(json.dumps(ev, separators=(',', ':')) + '\n')
+        a, _ = validate_trace_file(spec_dir, module, cfg, fn)
+        os.unlink(fn)
+        return a
+    if not evs or ok(len(evs)):
+        return None
+    lo, hi = 0, len(evs)          # prefix lo accepted (empty trace trivially), prefix hi rejected
+    while hi - lo > 1:
+        mid = (lo + hi) // 2
+        if mid == 0 or ok(mid):
+            lo = mid
+        else:
+            hi = mid
+    return hi - 1
